@@ -554,6 +554,8 @@ def callback_leak(ck, cs_cfg):
                 p = pm.get(x)
                 if not (isinstance(p, ast.Call) and p.func is x):
                     callbacks.add(x.attr)
+                elif any(isinstance(a_, (ast.Lambda,)) or (isinstance(a_, q.FuncNode) and a_ is not m.node) for a_ in q.ancestors(pm, x)):
+                    callbacks.add(x.attr)  # called from a lambda / local function that is handed out as the callback
     ck.floor("C10.callback-no-leak", len(callbacks), 3, "connector callbacks (bound methods handed to the IOLoop / futures)")
 
     def unprotected_chains(mname: str, seen: Tuple[str, ...]) -> List[str]:
